@@ -155,7 +155,7 @@ func doPub(q request) response {
 		return response{Code: 103, Msg: "unknown transport " + q.Transport}
 	}
 
-	one := func(op string, hdrs map[string]int, v *Val, full bool) (int, string, bool) {
+	one := func(op string, hdrs map[string]int, v *Val, full bool) (int, string, bool, [2]int) {
 		fctx := mkContext(hdrs, q.TimeoutMs)
 		msg := &tstruct{want: v}
 		want, hdr, ops := expectedFrame(pf, fctx, op, msg)
@@ -175,7 +175,7 @@ func doPub(q request) response {
 		} else {
 			bodies, derr := se.drain()
 			if derr != nil {
-				return 103, derr.Error(), false
+				return 103, derr.Error(), false, [2]int{}
 			}
 			for _, b := range bodies {
 				sent = append(sent, len(b))
@@ -189,11 +189,11 @@ func doPub(q request) response {
 			r.ReqHdr, r.ReqOps = hdr, opsJSON(ops)
 			r.Sent, r.SentOK = sent, sentOK
 		}
-		return code, emsg, err == nil && len(sent) == 1 && sentOK
+		return code, emsg, err == nil && len(sent) == 1 && sentOK, [2]int{4 + hdr + opsTotal(ops), 0}
 	}
 	one(q.Method, q.Hdrs, q.Args, true)
 	if q.Followup {
-		r.FollowCode, r.FollowMsg, r.FollowOK = one("Op", nil, followArgs, false)
+		r.FollowCode, r.FollowMsg, r.FollowOK, r.FollowSizes = one("Op", nil, followArgs, false)
 	}
 	return r
 }
